@@ -36,6 +36,7 @@ Self-test (mutants applied to a scratch copy, VERIF_REPO=/tmp/af-mut-c10, quick 
   M5 _count_factorizations: ``len(imperfect_per_loop) <= 1`` -> ``< 1``  -> CAUGHT (1890)
   M6 get_possible_factor_sizes: drop the ``int(outer_size), int(inner_size)`` cast
        -> CAUGHT (520 violations, numpy-args phase: uint8 overflow / division by zero)
+  (M4 re-run after the five families were merged into one worker pool: still CAUGHT, 992)
 """
 
 from __future__ import annotations
